@@ -173,7 +173,11 @@ def run_case(case):
                 # transcription time only; everything that is not a time-grid quantity must still agree
                 pa, pb = obs.rb(ref_x0, ref_p0), o.rb(v.x0, v.p0)
                 rest_ok = all(np.allclose(np.asarray(pa[k], dtype=float), np.asarray(pb[k], dtype=float), atol=1e-12)
-                              for k in pa if k not in ("tc", "tc_val", "ti", "tr"))
+                              for k in pa if k.split(":")[0] in (("xc", "uc", "vc", "v", "xi", "xr", "zr", "T", "t0")
+                                                                  if spec["method"]["cls"] == "DC" else
+                                                                  ("xc", "uc", "vc", "v", "T", "t0")
+                                                                  if spec["method"]["cls"] == "MS" else
+                                                                  ("uc", "vc", "v", "T", "t0")))
                 if rest_ok:
                     res["violations"].append({
                         "kind": "start", "mech": "C18|grid-start-values-stale-after-horizon-parameter-update",
